@@ -70,6 +70,8 @@ MUST = [
     "&", "<", ">", '"', "'", "]]>", "a&b<c>d\"e'f", "&amp;", "&#65;", "&nosuch;", "<!-- c -->", "<a:b/>", "</a:t><a:t>",
     "<?pi x?>", "<![CDATA[x]]>", "%s %d %(x)s", "{} {0} {x}", "C:\\dir\\n", "  lead", "trail  ", "\u00e9\u65e5\u672c\U0001F600",
     "[<100]0;0.0", '0.00"x"', 'x" y="z', "", "a\tb", "a\nb", "a\rb", "a\vb",
+    # strings that are not in Unicode normal form C / KC (decomposed accent, OHM and ANGSTROM signs, Hangul jamo, a ligature): stored as given
+    "e\u0301 \u2126\u212b \u1100\u1161 \ufb01\u00b5",
 ]
 ATOMS = [
     "&", "<", ">", '"', "'", "]]>", "&amp;", "&lt;", "&gt;", "&quot;", "&apos;", "&#65;", "&#x41;", "&#0;", "&nosuch;", "&a", "AT&T;",
@@ -433,6 +435,19 @@ def _register():
     png, mp4 = (lambda s: s + ".png"), (lambda s: s + ".mp4")
     sink("filename:add_picture", "picture-filename", lambda d, s: {"id": d.slide().shapes.add_picture(d.png(s + ".png"), emu(0), emu(0)).shape_id},
          xp=sp + "/@descr", dom="file", exp=png)
+    def _second_name(d, s):
+        """the same image bytes added twice under two file names: the picture under test is the SECOND one"""
+        import shutil
+
+        first = d.png("first name.png")
+        second = os.path.join(d.tmp, s + ".png")
+        shutil.copyfile(first, second)
+        d.files.append(second)
+        sl = d.slide()
+        sl.shapes.add_picture(first, emu(0), emu(0))
+        return {"id": sl.shapes.add_picture(second, emu(0), emu(0)).shape_id}
+
+    sink("filename:add_picture:same-bytes-other-name", "picture-filename-of-bytes-already-in-the-deck", _second_name, xp=sp + "/@descr", dom="file", exp=png)
     sink("filename:insert_picture", "placeholder-picture-filename", lambda d, s: {"id": d.slide(8).placeholders[1].insert_picture(d.png(s + ".png")).shape_id},
          xp=sp + "/@descr", dom="file", exp=png)
     sink("filename:add_movie", "movie-filename", lambda d, s: _movie(d, s), name_api, xp=sp + "/@name", dom="file", exp=mp4)
